@@ -408,3 +408,30 @@ func TestF31_ElementTypeOnlyOnTheSchemaList(t *testing.T) {
 		t.Errorf("$.ls.First().Left(1) is a String call on a string element and must be accepted: %.300s", b)
 	}
 }
+
+type failingReader struct {
+	data []byte
+	pos  int
+	at   int
+	err  error
+}
+
+func (r *failingReader) Read(p []byte) (int, error) {
+	if r.pos >= r.at {
+		return 0, r.err
+	}
+	n := copy(p, r.data[r.pos:r.at])
+	r.pos += n
+	return n, nil
+}
+func (r *failingReader) Seek(o int64, w int) (int64, error) { r.pos = int(o); return o, nil }
+
+func TestF32_ReadFailureWithScannerMessageText(t *testing.T) {
+	op, err := mpath.ParseReadSeeker(&failingReader{data: []byte("$.a.b.c"), at: 3, err: errors.New("invalid char escape")})
+	if err == nil || op != nil {
+		t.Errorf("a reader failing after 3 bytes must yield an error and no operation; got %v %v", op, err)
+	}
+	if _, err := mpath.ParseString(`$.s.DoesMatchRegex("\d+")`); err != nil {
+		t.Errorf("an unknown escape in a literal is still tolerated: %v", err)
+	}
+}
